@@ -1,12 +1,12 @@
 (* Stream E2E (C01): two nodes, real protocol stack on both ends.  case = link, ownA, ownB, gaps,
-   B's handlers (label, capture flag), events.  A sends the events; the wire image is replayed to B's
+   B's handlers (label, capture flag, removed-again flag), events.  A sends the events; the wire image is replayed to B's
    receiver with 'no data yet' answers inserted by the gap pattern; B ticks until the link is dry.
    Observation: ids B's registrations returned, A's send results, B's tick results, B's handler log,
    each logged packet together with the event some decoder reads from it. *)
 Require Import RP.Model.Base RP.Model.Packet RP.Model.Events RP.Model.Frame RP.Model.Links RP.Model.Protocol RP.Spec.EventLayout
   RP.Lemmas.EndToEnd RP.Glue.Wire RP.Glue.StreamLink RP.Glue.StreamProto.
 
-Definition e2e_split (case: list N) : option (N * N * N * list N * list handler * list event) :=
+Definition e2e_split (case: list N) : option (N * N * N * list N * list (handler * bool) * list event) :=
   match case with
   | link :: ownA :: ownB :: ng :: r =>
       match take ng r with
@@ -15,7 +15,7 @@ Definition e2e_split (case: list N) : option (N * N * N * list N * list handler 
           | Some (hls, ne :: r2) =>
               match parse_lists_n (N.to_nat ne) r2 with
               | Some (els, []) =>
-                  let hs := map (fun l => match l with [label; cap] => mkH label (negb (cap =? 0)) [] | _ => mkH 0 false [] end) hls in
+                  let hs := map (fun l => match l with [label; cap; rem] => (mkH label (negb (cap =? 0)) [], negb (rem =? 0)) | [label; cap] => (mkH label (negb (cap =? 0)) [], false) | _ => (mkH 0 false [], false) end) hls in
                   let es := fold_right (fun l acc => match event_of l, acc with Some e, Some a => Some (e :: a) | _, _ => None end) (Some []) els in
                   option_map (fun es => (link, ownA, ownB, gaps, hs, es)) es
               | _ => None end
@@ -37,11 +37,14 @@ Definition run_E2E (case: list N) : list N :=
   match e2e_split case with
   | Some (link, ownA, ownB, gaps, hs, es) =>
       let '(retsA, iA) := send_all ownA (map encode es) (mkI [] [] []) in
-      let tblB := table_of (map PAdd hs) [] in
+      (* B registers every handler, then unregisters the flagged ones *)
+      let tbl0 := table_of (map (fun hr => PAdd (fst hr)) hs) [] in
+      let ids := keys tbl0 in
+      let tblB := fold_left (fun (t: table) (ir: N * (handler * bool)) => if snd (snd ir) then fst (remove_handler t (fst ir)) else t) (combine ids hs) tbl0 in
       match lnk_run link gaps (i_sent iA) with
       | Some (polls_, _) =>
           let '(retsB, log) := ticks ownB tblB (map (fun rn => gres_of (fst rn)) polls_) in
-          (nlen (keys tblB) :: keys tblB) ++ (nlen retsA :: map ret_class retsA) ++ (nlen retsB :: map ret_class retsB) ++ show_elog log
+          (nlen ids :: ids) ++ (nlen retsA :: map ret_class retsA) ++ (nlen retsB :: map ret_class retsB) ++ show_elog log
       | None => [3]
       end
   | None => BAD
@@ -75,7 +78,7 @@ Definition ok_C01 (case obs: list N) : list N :=
   match e2e_split case, e2e_parse obs with
   | Some (link, ownA, ownB, gaps, hs, es), Some (ids, ra, rb, ents) =>
       if negb (length ids =? length hs)%nat then [190] else
-      let tbl := fold_left (fun t ih => insert (fst ih) (snd ih) t) (combine ids hs) [] in
+      let tbl := fold_left (fun (t: table) (ih: N * (handler * bool)) => if snd (snd ih) then t else insert (fst ih) (fst (snd ih)) t) (combine ids hs) [] in
       let sent := filter (fun e => negb (recv_of e =? ownA) || (ownA =? BROADCAST)) es in
       let expect := concat (map (fun e => map (fun kh => fst kh :: h_label (snd kh) :: show_packet (layout_encode e) ++ event_fields e)
                                                  (filter (fun kh => (recv_of e =? ownB) || (recv_of e =? BROADCAST) || h_cap (snd kh)) tbl)) sent) in
